@@ -437,20 +437,27 @@ def replay(P, path):
 
 
 def setup():
-    """build everything from files on disk"""
+    """build, from files on disk, everything the claimed checks need (the properties listed in tools/claimed.json)"""
     import translator
-    props = sorted(f[6:-3] for f in os.listdir(os.path.join(VERIF, 'translator')) if f.startswith('facts_'))
+    with open(os.path.join(VERIF, 'tools', 'claimed.json')) as f:
+        props = sorted(json.load(f))
+    ok_all = True
     with coqrun.BuildLock():
+        targets = []
         for p in props:
-            _, n, fails, _ = translator.generate(p)
-            if fails:
-                print(f'translator {p}: {fails}')
-        ok, out = coqrun.make([], timeout=3000)
+            P = importlib.import_module(f'harness.props.{p}')
+            for g in [p] + list(getattr(P, 'EXTRA_GEN', [])):
+                _, n, fails, _ = translator.generate(g)
+                if fails:
+                    print(f'translator {g}: {fails}')
+                    ok_all = False
+            targets += P.MODEL_TARGETS + P.PROOF_TARGETS
+        ok, out = coqrun.make(sorted(set(targets)), timeout=3000)
         print(out[-3000:])
-    bad = gate_no_axioms()
+    bad = gate_no_axioms(['Base', 'Gen'] + props)
     if bad:
         print('forbidden declarations:', bad)
-    return 0 if ok and not bad else 1
+    return 0 if ok and ok_all and not bad else 1
 
 
 def main(argv):
